@@ -13,7 +13,6 @@ an in-memory SQLite database, runs the real ``session.execute(update(A).where(cr
 from __future__ import annotations
 
 import functools
-import json
 import sys
 from typing import List, Optional
 
